@@ -304,6 +304,10 @@ class TCPPacketGenerator(Device, OutMixIn):
             )
         )
         self.congestion_control.timer_expired()
+        # a retransmission timeout ends fast recovery: the next new ACK is
+        # counted from cwnd = 1 MSS (slow start) and must not "deflate" the
+        # window up to ssthresh
+        self.dupack = 0
 
         # double the RTO and re-arm the timer of this segment first: the
         # retransmission below may bring the ACK back synchronously, which
